@@ -215,6 +215,8 @@ pub struct Th {
     pub op_helped: bool,
     pub op_paid: bool,
     pub ops_done: usize,
+    /// completed loads and writes (operations that need the thread's node)
+    pub crate_ops_done: usize,
     pub pending_tag: u64,
     pub node: usize, // node address this thread is believed to own (0 = none)
     pub acquiring: bool,
@@ -445,6 +447,7 @@ fn new_th(t: usize) -> Th {
         op_helped: false,
         op_paid: false,
         ops_done: 0,
+        crate_ops_done: 0,
         pending_tag: 0,
         node: 0,
         acquiring: false,
@@ -1263,10 +1266,24 @@ fn role_of(name: &str) -> Role {
     }
 }
 
-const GEN_TAG: usize = 0b10;
-const REPLACEMENT_TAG: usize = 0b01;
-const TAG_MASK: usize = 0b11;
-const DEBT_NONE: usize = 0b11;
+/// the crate's internal encodings, read through the hook (never hard-coded here: changing one of
+/// these constants is a benign change of the crate)
+struct Enc {
+    gen_tag: usize,
+    replacement_tag: usize,
+    tag_mask: usize,
+    debt_none: usize,
+    idle: usize,
+    node_unused: usize,
+    node_used: usize,
+}
+fn enc() -> &'static Enc {
+    static E: std::sync::OnceLock<Enc> = std::sync::OnceLock::new();
+    E.get_or_init(|| {
+        let e = arc_swap::verif::encodings();
+        Enc { gen_tag: e.control_gen_tag, replacement_tag: e.control_replacement_tag, tag_mask: e.control_tag_mask, debt_none: e.debt_none, idle: e.control_idle, node_unused: e.node_unused, node_used: e.node_used }
+    })
+}
 
 /// classification of a step from its role (counts used for non-triviality and for O-nodes)
 fn classify(st: &mut State, me: usize, a: &Access, role: Role, node: usize, res: (usize, bool, usize)) {
@@ -1302,7 +1319,7 @@ fn classify(st: &mut State, me: usize, a: &Access, role: Role, node: usize, res:
                 if opk == OpKind::Load && role == Role::FastSlot {
                     st.stats.confirm_failed += 1;
                 }
-                if res.1 && a.b == DEBT_NONE && opk == OpKind::Write {
+                if res.1 && a.b == enc().debt_none && opk == OpKind::Write {
                     st.stats.paid_by_writer += 1;
                     // whose debt was it? mark the owner thread's op as paid
                     if let Some(&o) = st.owner.get(&node) {
@@ -1315,7 +1332,7 @@ fn classify(st: &mut State, me: usize, a: &Access, role: Role, node: usize, res:
                     }
                 }
             }
-            if a.op == Op::Swap && a.a != DEBT_NONE {
+            if a.op == Op::Swap && a.a != enc().debt_none {
                 // a slot claim: must be made by the thread that owns the node
                 match st.owner.get(&node) {
                     Some(&o) if o == me => {}
@@ -1327,10 +1344,10 @@ fn classify(st: &mut State, me: usize, a: &Access, role: Role, node: usize, res:
             }
         }
         Role::Control => {
-            if a.op == Op::Swap && a.a & TAG_MASK == GEN_TAG {
+            if a.op == Op::Swap && a.a & enc().tag_mask == enc().gen_tag {
                 st.stats.fallback += 1;
                 st.th[me].op_fallback = true;
-                if a.a == GEN_TAG {
+                if a.a == enc().gen_tag {
                     st.stats.gen_wrapped += 1;
                     if opk == OpKind::Write {
                         st.stats.gen_wrapped_nested += 1;
@@ -1348,16 +1365,16 @@ fn classify(st: &mut State, me: usize, a: &Access, role: Role, node: usize, res:
                     }
                 }
             }
-            if a.op == Op::Load && res.0 & TAG_MASK == GEN_TAG && opk == OpKind::Write {
+            if a.op == Op::Load && res.0 & enc().tag_mask == enc().gen_tag && opk == OpKind::Write {
                 st.stats.help_seen_intent += 1;
             }
-            if a.op == Op::Cas && res.1 && a.b & TAG_MASK == REPLACEMENT_TAG {
+            if a.op == Op::Cas && res.1 && a.b & enc().tag_mask == enc().replacement_tag {
                 st.stats.help_delivered += 1;
             }
-            if a.op == Op::Cas && !res.1 && a.b & TAG_MASK == REPLACEMENT_TAG {
+            if a.op == Op::Cas && !res.1 && a.b & enc().tag_mask == enc().replacement_tag {
                 st.stats.help_rejected += 1;
             }
-            if a.op == Op::Swap && a.a == 0 && res.0 & TAG_MASK == REPLACEMENT_TAG {
+            if a.op == Op::Swap && a.a == enc().idle && res.0 & enc().tag_mask == enc().replacement_tag {
                 st.stats.help_accepted += 1;
                 st.th[me].op_helped = true;
             }
@@ -1368,27 +1385,42 @@ fn classify(st: &mut State, me: usize, a: &Access, role: Role, node: usize, res:
             }
         }
         Role::InUse => {
-            // claim: UNUSED(0) -> USED(1)
-            if a.op == Op::Cas && res.1 && a.a == 0 && a.b == 1 {
-                st.stats.node_reclaimed += 1;
-                if let Some(&o) = st.owner.get(&node) {
-                    if o != me {
-                        let msg = format!("node {:x} claimed by t{} while still owned by t{} ({})", node, me, o, short(a.site));
-                        st.fail("O-nodes", "C11", msg);
+            // Ownership by value, not by instruction: whatever successful write makes the state
+            // USED is a claim by the writing thread, whatever successful write by the owner makes
+            // it something else is a release (the crate claims with a compare-exchange from UNUSED
+            // or - transiently, in check_cooldown - from COOLDOWN, and releases with a swap or a
+            // store; a refactoring that uses other instructions for the same transitions must not
+            // look like a second owner).
+            let e = enc();
+            let wrote: Option<usize> = match a.op {
+                Op::Cas | Op::CasWeak if res.1 => Some(a.b),
+                Op::Swap | Op::Store => Some(a.a),
+                _ => None,
+            };
+            if let Some(v) = wrote {
+                if v == e.node_used {
+                    if let Some(&o) = st.owner.get(&node) {
+                        if o != me {
+                            let msg = format!("node {:x} claimed by t{} while still owned by t{} ({})", node, me, o, short(a.site));
+                            st.fail("O-nodes", "C11", msg);
+                        }
                     }
-                }
-                st.owner.insert(node, me);
-                st.th[me].node = node;
-                node_acquired(st, me);
-            }
-            // release: the owner writes anything but USED (the crate swaps in COOLDOWN; a
-            // refactoring that releases differently must not look like a second owner)
-            if matches!(a.op, Op::Swap | Op::Store) && a.a != 1 && st.owner.get(&node) == Some(&me) {
-                if st.owner.get(&node) == Some(&me) {
+                    st.owner.insert(node, me);
+                    st.th[me].node = node;
+                    if res.0 == e.node_unused {
+                        st.stats.node_reclaimed += 1;
+                        node_acquired(st, me);
+                    } else {
+                        let owners = st.owner.len();
+                        if owners > st.stats.peak_alive {
+                            st.stats.peak_alive = owners;
+                        }
+                    }
+                } else if st.owner.get(&node) == Some(&me) {
                     st.owner.remove(&node);
-                }
-                if st.th[me].node == node {
-                    st.th[me].node = 0;
+                    if st.th[me].node == node {
+                        st.th[me].node = 0;
+                    }
                 }
             }
         }
@@ -1727,6 +1759,11 @@ pub struct OpInfo {
     pub solo: bool,
 }
 
+/// loads and writes completed by the calling thread so far
+pub fn crate_ops_done() -> usize {
+    with_state(|st, me| st.th[me].crate_ops_done).unwrap_or(0)
+}
+
 pub fn op_end() -> OpInfo {
     crate::varc::ty_leave();
     with_state(|st, me| {
@@ -1745,6 +1782,9 @@ pub fn op_end() -> OpInfo {
         }
         st.th[me].op = OpKind::None;
         st.th[me].ops_done += 1;
+        if matches!(kind, OpKind::Load | OpKind::Write) {
+            st.th[me].crate_ops_done += 1;
+        }
         // end of the solo window?
         if st.freeze_state == 1 {
             if let Some(f) = st.spec.freeze.clone() {
